@@ -269,13 +269,27 @@ def declaration_scope_rule(cx, rep, rid):
 
         def is_stack(recv):
             return recv["k"] == "Field" and "Vec<(std::string::String" in (recv.get("ty") or "").replace("alloc::", "std::") or (recv["k"] == "Field" and recv["name"].endswith("_stack"))
-        pushes = [x for x in walk(t["body"]) if x["k"] == "MethodCall" and x.get("method") == "push" and is_stack(x["recv"])]
-        pops = [x for x in walk(t["body"]) if x["k"] == "MethodCall" and x.get("method") == "pop" and is_stack(x["recv"])]
+        pushes = [x for x in walk(t["body"]) if x["k"] == "MethodCall" and x.get("method") in ("push", "extend") and is_stack(x["recv"])]
+        pops = [x for x in walk(t["body"]) if x["k"] == "MethodCall" and x.get("method") in ("pop", "truncate") and is_stack(x["recv"])]
+        # or the scope is opened and closed by a local helper that runs a closure in between (b50:
+        # `self.with_type_applications(params, args, |this| ..)`): the helper call is push and pop in one
         if not pushes or not pops:
-            continue
+            pushes, pops = [], []
+            for x in walk(t["body"]):
+                if x["k"] in ("Call", "MethodCall"):
+                    tg = _callee_gid(F, x)
+                    if tg in trees and tg != g:
+                        hb = trees[tg]["body"]
+                        hp = any(y["k"] == "MethodCall" and y.get("method") in ("push", "extend") and is_stack(y["recv"]) for y in walk(hb))
+                        hq = any(y["k"] == "MethodCall" and y.get("method") in ("pop", "truncate") and is_stack(y["recv"]) for y in walk(hb))
+                        if hp and hq and any(a["k"] == "Closure" for a in (x.get("args") or [])):
+                            pushes.append(x)
+                            pops.append(x)
+            if not pushes:
+                continue
         decls = {}
         for pu in pushes:
-            for a in pu.get("args") or []:
+            for a in [a_ for a_ in (pu.get("args") or []) if a_["k"] != "Closure"]:
                 for x in C.nodes(a):
                     if x["k"] == "Field" and x["name"] == "type_params":
                         base = x["e"]
@@ -322,6 +336,8 @@ def registration_routes_rule(cx, rep, rid):
     F = cx.rs
     trees = {g: t for g, t in _core_trees(F).items() if "/src/swc_tools/" in (F.fns[g].file or "")}
     per_variant = {}     # variant -> {fn gid -> set(namespace tokens)}
+    wrapped = []         # (fn, target-enum variant, payload variants): payloads handed on inside a local enum (b81)
+    arm_tokens = {}      # target-enum variant -> namespaces its match arm registers in
     for g, t in sorted(trees.items()):
         C = Closure(t)
         structs = [x for x in walk(t["body"]) if x["k"] == "Struct" and "::SymbolExport::" in (x.get("def") or "")]
@@ -346,8 +362,17 @@ def registration_routes_rule(cx, rep, rid):
 
         def unit_variants(e):
             return sorted({x["def"].rsplit("::", 2)[-2] + "::" + x["def"].rsplit("::", 1)[-1] for x in walk(e)
-                           if x["k"] == "Path" and x.get("res") == "def" and x.get("defkind") in ("Ctor", "Variant") and x.get("def_local") and "SymbolExport" not in x.get("def", "")})
+                           if x["k"] == "Path" and x.get("res") == "def" and ("Variant" in (x.get("defkind") or "") and "Const" in (x.get("defkind") or "")) and x.get("def_local") and "SymbolExport" not in x.get("def", "")})
         for n in walk(t["body"]):
+            if n["k"] == "Call" and n.get("callee") and "::SymbolExport" not in n["callee"] and n.get("callee") not in F.hir:
+                f_ = n.get("f") or {}
+                if f_.get("k") == "Path" and "Variant" in (f_.get("defkind") or "") and f_.get("def_local"):
+                    vs = set()
+                    for a in n.get("args") or []:
+                        vs |= variants_in(a)
+                    if vs:
+                        wrapped.append((g, f_.get("def"), vs))
+                continue
             if n["k"] in ("Call", "MethodCall"):
                 tg = _callee_gid(F, n)
                 if tg not in F.hir or "/src/swc_tools/" not in (F.fns[tg].file or ""):
@@ -359,6 +384,11 @@ def registration_routes_rule(cx, rep, rid):
                 if not vs:
                     continue
                 uv = [u for a in args for u in unit_variants(a)]
+                if not uv:
+                    # a thin wrapper that names the namespace for its caller (`insert_value(..)` = `insert(ExportTable::Values, ..)`)
+                    inner_uv = sorted({u for y in walk(F.hir[tg]["body"]) if y["k"] in ("Call", "MethodCall") for a in (([y["recv"]] if y["k"] == "MethodCall" else []) + list(y.get("args") or [])) for u in unit_variants(a)})
+                    if len(inner_uv) == 1:
+                        uv = inner_uv
                 toks = uv if uv else [tg.rsplit("::", 1)[-1]]       # one namespace per unit variant of the mode enum
                 for v in vs:
                     per_variant.setdefault(v, {}).setdefault(g, set()).update(toks)
@@ -368,6 +398,25 @@ def registration_routes_rule(cx, rep, rid):
                 if vs and uv:
                     for v in vs:
                         per_variant.setdefault(v, {}).setdefault(g, set()).update(uv)
+    # where a wrapped payload is unwrapped: the arm `Target::V(export) => { registrar(.., export) .. }`
+    for g, t in sorted(trees.items()):
+        for m in walk(t["body"]):
+            if m["k"] != "Match":
+                continue
+            for a in m["arms"]:
+                for pt in walk(a["pat"]):
+                    if pt["k"] == "P.TupleStruct" and any(pt.get("def") == w[1] for w in wrapped):
+                        lids = {b.get("lid") for b in walk(pt) if b["k"] == "P.Binding"}
+                        for c in walk(a["body"]):
+                            if c["k"] in ("Call", "MethodCall"):
+                                tg = _callee_gid(F, c)
+                                if tg in F.hir and "/src/swc_tools/" in (F.fns[tg].file or ""):
+                                    args = ([c["recv"]] if c["k"] == "MethodCall" else []) + list(c.get("args") or [])
+                                    if any(y["k"] == "Path" and y.get("lid") in lids for a_ in args for y in Closure(t).nodes(a_)):
+                                        arm_tokens.setdefault(pt["def"], set()).add(tg.rsplit("::", 1)[-1])
+    for g, tv, vs in wrapped:
+        for v in vs:
+            per_variant.setdefault(v, {}).setdefault(g, set()).update(arm_tokens.get(tv, {tv}))
     n = 0
     for v, byfn in sorted(per_variant.items()):
         if len(byfn) < 2:
@@ -484,7 +533,16 @@ def visibility_consulted_rule(cx, rep, rid):
         exits = [e for e in exits if not from_scope_stack(e)]
         # an exit that states the visibility itself (`Visibility::Export` for the target of an import type) decides it
         def states_visibility(e):
-            return any(x["k"] == "Path" and x.get("res") == "def" and "Visibility::" in (x.get("def") or "") for x in C.nodes(e))
+            for x in C.nodes(e):
+                if x["k"] == "Path" and x.get("res") == "def" and "Visibility::" in (x.get("def") or ""):
+                    return True
+                # .. or through a small helper that builds the address with the constant (b81: `default_export_address(file)`)
+                if x["k"] in ("Call", "MethodCall"):
+                    tg = _callee_gid(F, x)
+                    if tg in trees and tg != g and not any((b.get("ty") or "").endswith("Visibility") for p_ in trees[tg].get("params", []) for b in walk(p_) if b["k"] == "P.Binding") \
+                            and any(y["k"] == "Path" and y.get("res") == "def" and "Visibility::" in (y.get("def") or "") for y in walk(trees[tg]["body"])) and len(list(walk(trees[tg]["body"]))) < 60:
+                        return True
+            return False
         exits = [e for e in exits if not states_visibility(e)]
         rep.ob(rid, "%s/visibility-consulted" % g.rsplit("::", 1)[-1], not exits,
                "%s returns a value (line %s) on a path that has not read its `Visibility` parameter: a name reached through `import(\"./t\").N` must be looked up in t's EXPORT table - an answer taken from a table keyed by (file, name) before that binds it to t's private `N` (silently the wrong type when t exports something else under that name, and no diagnostic when t exports no `N`), depending on which parser was extracted first"
@@ -789,7 +847,9 @@ def own_only_read_rule(cx, rep, rid):
                     rep.ob(rid, "%s.%s/%s" % (cname, mname, _ident(call["callee"])), a0 not in names,
                            "%s.%s reads a property of the INPUT through the own-only getter %s: every other validator reads declared properties with `input[k]` (inherited included), so the same type written with a merged tag (`{type: \"a\" | \"b\"; ..}`) accepts a class instance / Object.create value whose tag is inherited while the discriminated-union spelling rejects it - a meaning-preserving rewrite changes the validator"
                            % (cname, mname, _ident(call["callee"])), mod.loc(call), sample={"class": cname, "method": mname, "getter": _ident(call["callee"]), "first_argument": ts_s(call["arguments"][0]["expression"])})
-    rep.floor(rid, "own-only getter calls in methods that hold the input (a private helper that is handed something else does not count)", n, 1)
+    n_all = sum(1 for c in fam.classes.values() for m in c.methods.values() if m["function"].get("body") is not None
+                for call in twalk(m["function"]) if call["type"] == "CallExpression" and _ident(call["callee"]) in getters)
+    rep.floor(rid, "own-only getter calls in the methods of the runtime classes", n_all, 1)
 
 
 def _prim_test(e, name, pol=True):
